@@ -39,8 +39,60 @@ func c11EventName(e int) string {
 }
 
 type c11State struct {
-	d    *mcMemDriver
-	hist []int
+	d       *mcMemDriver
+	hist    []int
+	genesis int // founding members of the network
+	build   func() (*mcMemDriver, error)
+	pending []int // history not yet executed (the node is built only for enabled events)
+}
+
+// c11Structural: is event e possible at all after the (applied) history? Kinds
+// only; saves building a node for events the driver would refuse anyway.
+func c11Structural(genesis int, hist []int, e int) bool {
+	pledging, accepted := false, genesis
+	for _, he := range hist {
+		switch he / c11Deltas {
+		case mcMemPledge:
+			pledging = true
+		case mcMemAccept:
+			pledging, accepted = false, accepted+1
+		case mcMemCancel:
+			pledging = false
+		case mcMemRemove:
+			accepted--
+		}
+	}
+	switch e / c11Deltas {
+	case mcMemPledge:
+		return !pledging
+	case mcMemAccept, mcMemCancel:
+		return pledging
+	case mcMemRemove:
+		return !pledging && accepted > 7
+	case mcMemCustodianSame:
+		return e%c11Deltas != 1 // same-account updates: equal timestamp and +12 h only
+	}
+	return true
+}
+
+// materialize builds the node and executes the pending history.
+func (s *c11State) materialize() bool {
+	if s.d != nil {
+		return true
+	}
+	d, err := s.build()
+	if err != nil {
+		panic(err)
+	}
+	s.d = d
+	for _, e := range s.pending {
+		if err := d.Apply(e/c11Deltas, s.nextTS(e)); err != nil {
+			return false
+		}
+		s.hist = append(s.hist, e)
+	}
+	s.pending = nil
+	return true
 }
 
 func c11Base(d *mcMemDriver) uint64 { return d.Net.Epoch + 10*mcMemDay + mcMemHour }
@@ -60,7 +112,7 @@ var c11Ops = []byte{common.TransactionTypeMint, common.TransactionTypeNodeRemove
 // kernel-level components use strict "before q" semantics, the two storage
 // lookups are inclusive ("at or before q").
 var c11KernelParts = []string{"nodes.all", "nodes.accepted", "keys.r1", "keys.r0", "threshold.final", "threshold.nonfinal", "pledging", "removing", "elect"}
-var c11StoreParts = []string{"custodian", "store.nodes.state", "store.nodes"}
+var c11StoreParts = []string{"custodian", "custodian.list", "store.nodes.state", "store.nodes"}
 
 func c11CNodes(nodes []*CNode) string {
 	var b strings.Builder
@@ -114,10 +166,58 @@ func c11StoreNodes(nodes []*common.Node, asSet bool) string {
 	return strings.Join(parts, ";")
 }
 
+// c11View is what is being observed: a node, its store and one accepted chain.
+type c11View struct {
+	node  *Node
+	store storage.Store
+	chain *Chain
+}
+
+func c11ViewOf(d *mcMemDriver) *c11View {
+	return &c11View{node: d.M.Node, store: d.M.Store, chain: d.M.chainOf(d.Net.NodeIds[2])}
+}
+
+// c11FreshView is a restarted node over the same store: a new Node whose
+// membership is loaded by one real LoadConsensusNodes (full rebuild).
+func c11FreshView(d *mcMemDriver) (*c11View, error) {
+	old := d.M.Node
+	n := &Node{IdForNetwork: old.IdForNetwork, Signer: old.Signer, Epoch: old.Epoch, networkId: old.networkId,
+		persistStore: old.persistStore, genesisNodesMap: old.genesisNodesMap, cacheStore: old.cacheStore}
+	if err := n.LoadConsensusNodes(); err != nil {
+		return nil, err
+	}
+	return &c11View{node: n, store: d.M.Store, chain: &Chain{node: n, ChainId: d.Net.NodeIds[2]}}, nil
+}
+
+func c11CustodianList(store storage.Store, q uint64) string {
+	var curs []*common.CustodianUpdateRequest
+	var err error
+	if p := verifmc.Catch(func() { curs, err = store.ListCustodianUpdates() }); p != nil {
+		return fmt.Sprintf("panic:%v", p)
+	}
+	if err != nil {
+		return "error:" + err.Error()
+	}
+	var b strings.Builder
+	for _, cur := range curs {
+		if cur.Timestamp > q {
+			continue
+		}
+		var nb []byte
+		for _, n := range cur.Nodes {
+			nb = append(nb, n.Extra...)
+		}
+		fmt.Fprintf(&b, "%d/%s/%s/%s;", cur.Timestamp, cur.Transaction, cur.Custodian.String(), crypto.Blake3Hash(nb))
+	}
+	return b.String()
+}
+
 // c11Part evaluates one component of the observation at q through the real code.
-func c11Part(d *mcMemDriver, part string, q uint64) (out string) {
-	node := d.M.Node
-	gchain := d.M.chainOf(d.Net.NodeIds[2])
+func c11Part(d *mcMemDriver, part string, q uint64) string { return c11PartOf(c11ViewOf(d), part, q) }
+
+func c11PartOf(v *c11View, part string, q uint64) (out string) {
+	node := v.node
+	gchain := v.chain
 	p := verifmc.Catch(func() {
 		switch part {
 		case "nodes.all":
@@ -150,11 +250,13 @@ func c11Part(d *mcMemDriver, part string, q uint64) (out string) {
 			}
 			out = b.String()
 		case "custodian":
-			out = c11Custodian(d.M.Store, q)
+			out = c11Custodian(v.store, q)
+		case "custodian.list":
+			out = c11CustodianList(v.store, q)
 		case "store.nodes.state":
-			out = c11StoreNodes(d.M.Store.ReadAllNodes(q, true), false)
+			out = c11StoreNodes(v.store.ReadAllNodes(q, true), false)
 		case "store.nodes":
-			out = c11StoreNodes(d.M.Store.ReadAllNodes(q, false), true)
+			out = c11StoreNodes(v.store.ReadAllNodes(q, false), true)
 		default:
 			panic("unknown part " + part)
 		}
@@ -288,6 +390,9 @@ type c11Counters struct {
 	removals         atomic.Int64
 	overwrites       atomic.Int64
 	refCustodianSeen atomic.Int64
+	freshCompared    atomic.Int64 // (part, instant) pairs compared between the long-running and a restarted node
+	custOccupied     atomic.Int64 // same-account custodian updates stamped like an existing record (ignored by the ledger)
+	custOccupiedCmp  atomic.Int64
 	candidateSeen    atomic.Int64 // instants at which a removal candidate was predicted
 	removePledgeAcc  atomic.Int64 // states reached through remove -> pledge -> accept
 }
@@ -351,12 +456,35 @@ func c11ColdCheck(s *c11State, qs []uint64, mem map[uint64]string, report func(k
 }
 
 func c11Apply(s *c11State, e int, replaying bool, report func(key, desc string)) bool {
-	d := s.d
 	kind := e / c11Deltas
-	if !d.Enabled(kind) {
+	if replaying && s.d == nil {
+		s.pending = append(s.pending, e) // executed when an enabled event follows
+		return true
+	}
+	if s.d == nil && !c11Structural(s.genesis, s.pending, e) {
+		return false
+	}
+	if !s.materialize() {
+		report("replay-diverged", fmt.Sprintf("a history that was applied before does not apply again: %v", c11HistNames(s.pending)))
+		return false
+	}
+	d := s.d
+	if !d.Enabled(kind) || !c11Structural(s.genesis, s.hist, e) {
 		return false
 	}
 	ts := s.nextTS(e)
+	if kind == mcMemCustodianSame && e%c11Deltas == 0 {
+		// equal timestamp: only onto an existing custodian record (the case the ledger ignores)
+		onto := false
+		for _, cr := range d.Custs {
+			if cr.TS == ts {
+				onto = true
+			}
+		}
+		if !onto {
+			return false
+		}
+	}
 	if replaying {
 		if err := d.Apply(kind, ts); err != nil {
 			return false
@@ -374,6 +502,24 @@ func c11Apply(s *c11State, e int, replaying bool, report func(key, desc string))
 		}
 	}
 	pre := c11Observe(d, qsPre, 0)
+	// a custodian update stamped like an existing custodian record must leave the
+	// custodian history untouched at every instant (the ledger ignores or refuses it)
+	occupied := false
+	if kind == mcMemCustodian || kind == mcMemCustodianSame {
+		for _, cr := range d.Custs {
+			if cr.TS == ts {
+				occupied = true
+			}
+		}
+	}
+	preCust := map[string]string{}
+	if occupied {
+		for _, q := range qsAll {
+			for _, part := range []string{"custodian", "custodian.list"} {
+				preCust[c11ObsKey(part, q)] = c11Part(d, part, q)
+			}
+		}
+	}
 
 	if err := d.Apply(kind, ts); err != nil {
 		return false
@@ -415,6 +561,35 @@ func c11Apply(s *c11State, e int, replaying bool, report func(key, desc string))
 			}
 		}
 	}
+	if occupied {
+		c11Ctr.custOccupied.Add(1)
+		for _, q := range qsAll {
+			for _, part := range []string{"custodian", "custodian.list"} {
+				k := c11ObsKey(part, q)
+				c11Ctr.custOccupiedCmp.Add(1)
+				if preCust[k] != post[k] {
+					report("custodian-history-rewritten:"+part, fmt.Sprintf("%s at instant %d (%+d from the record) was %q before and is %q after appending %s at the timestamp %d of an existing custodian record; history %v", part, q, int64(q)-int64(ts), c11Short(preCust[k]), c11Short(post[k]), c11EventName(e), ts, names))
+					return true
+				}
+			}
+		}
+	}
+	// (1b) the long-running node (append + LoadConsensusNodes after every event) and a
+	// restarted node (one full load from the same store) report the same history
+	fresh, err := c11FreshView(d)
+	if err != nil {
+		report("restart-failed", fmt.Sprintf("LoadConsensusNodes on a fresh node failed: %v; history %v", err, names))
+		return true
+	}
+	for _, q := range qsPost {
+		for _, part := range c11KernelParts {
+			c11Ctr.freshCompared.Add(1)
+			if got := c11PartOf(fresh, part, q); got != post[c11ObsKey(part, q)] {
+				report("restarted-node-differs:"+part, fmt.Sprintf("%s at instant %d (%+d from the appended record stamped %d): long-running node %q, node restarted over the same store %q; history %v", part, q, int64(q)-int64(ts), ts, c11Short(post[c11ObsKey(part, q)]), c11Short(got), names))
+				return true
+			}
+		}
+	}
 	// sensitivity: the append is visible at some later instant
 	changed := false
 	for _, part := range c11AllParts() {
@@ -424,7 +599,7 @@ func c11Apply(s *c11State, e int, replaying bool, report func(key, desc string))
 			changed = true
 		}
 	}
-	if changed {
+	if changed || occupied {
 		c11Ctr.changedLater.Add(1)
 	}
 	for _, q := range qsPost {
@@ -457,7 +632,7 @@ func c11Apply(s *c11State, e int, replaying bool, report func(key, desc string))
 	// (3) custodian: reference ledger (latest record at or before q) and cold / warm handles
 	hasCust := false
 	for _, he := range s.hist {
-		if he/c11Deltas == mcMemCustodian {
+		if k := he / c11Deltas; k == mcMemCustodian || k == mcMemCustodianSame {
 			hasCust = true
 		}
 	}
@@ -495,25 +670,23 @@ func c11Apply(s *c11State, e int, replaying bool, report func(key, desc string))
 func TestMC_C11(t *testing.T) {
 	c := verifmc.Start(t, "C11", "model_checking")
 	defer c.Finish()
-	c.SetRule("BFS over all histories of real finalized membership / custodian events {pledge, accept, cancel, remove-oldest, custodian-update} on a 7-node genesis and {pledge, accept, cancel, remove-oldest} on a 9-node genesis x timestamp {equal to, 1 ns after, 12 h after the previous event}; a state is a distinct history; per transition the observation (NodesListWithoutState both modes incl. ConsensusIndex, ConsensusKeys rounds 0/1, ConsensusThreshold final/non-final, PledgingNode, removal candidate, electSnapshotNode for 5 operations, ReadCustodian, ReadAllNodes both modes) is taken at every record boundary (ts-1, ts, ts+1) not later than the appended record before and after the append, and additionally at 6 instants in / around the operation window of each of the two following days, in ascending / reverse / interleaved order, after a second LoadConsensusNodes, and (custodian) on cold and warm store handles over an on-disk copy")
+	c.SetRule("BFS over all histories of real finalized membership / custodian events {pledge, accept, cancel, remove-oldest, custodian-update (new account), custodian-update-same-account (different transaction)} on a 7-node genesis and {pledge, accept, cancel, remove-oldest} on a 9-node genesis x timestamp {equal to, 1 ns after, 12 h after the previous event}; a state is a distinct history; per transition the observation (NodesListWithoutState both modes incl. ConsensusIndex, ConsensusKeys rounds 0/1, ConsensusThreshold final/non-final, PledgingNode, removal candidate, electSnapshotNode for 5 operations, ReadCustodian, ReadAllNodes both modes) is taken at every record boundary (ts-1, ts, ts+1) not later than the appended record before and after the append, and additionally at 6 instants in / around the operation window of each of the two following days, in ascending / reverse / interleaved order, after a second LoadConsensusNodes, on a restarted node (fresh Node, one LoadConsensusNodes over the same store), and (custodian) on cold and warm store handles over an on-disk copy")
 	c.Assume("events are finalized at the storage layer (LockInputs, WriteTransaction, WriteSnapshot on a genesis chain's head round) followed by the real LoadConsensusNodes; kernel admission rules (hours, periods, election) are not applied, so some histories are not reachable through consensus",
 		"the two storage lookups ReadCustodian / ReadAllNodes are inclusive (a record stamped q is part of the view at q): for them the instant q == appended timestamp is counted, not compared",
 		"ReadAllNodes(q, false) orders equal timestamps by map iteration and is compared as a set")
 	depth := verifmc.Pick(c, 3, 4)
-	run := func(name string, kinds int, newDriver func() (*mcMemDriver, error)) (int64, int64, int) {
+	run := func(name string, kinds, genesis int, newDriver func() (*mcMemDriver, error)) (int64, int64, int) {
 		b := &verifmc.BFS[*c11State]{
 			C: c, NumEvents: kinds * c11Deltas, MaxDepth: depth,
 			EventName: c11EventName,
-			New: func(int) *c11State {
-				d, err := newDriver()
-				if err != nil {
-					panic(err)
+			New:       func(int) *c11State { return &c11State{genesis: genesis, build: newDriver} },
+			Apply:     c11Apply,
+			Key:       func(s *c11State) string { return name + ":" + strings.Join(c11HistNames(s.hist), ",") },
+			Close: func(s *c11State) {
+				if s.d != nil {
+					s.d.Close()
 				}
-				return &c11State{d: d}
 			},
-			Apply: c11Apply,
-			Key:   func(s *c11State) string { return name + ":" + strings.Join(c11HistNames(s.hist), ",") },
-			Close: func(s *c11State) { s.d.Close() },
 		}
 		st, tr, dp, _ := b.Run()
 		c.Set("states_"+name, st)
@@ -523,8 +696,8 @@ func TestMC_C11(t *testing.T) {
 	// (a) 7-node genesis, all five kinds; (b) 9-node genesis (removals possible from the
 	// start: remove -> pledge -> accept puts a REMOVED record between accepted ones),
 	// membership kinds only
-	states, trans, d := run("net7", mcMemKinds, func() (*mcMemDriver, error) { return newMCMemDriver("") })
-	states9, trans9, _ := run("net9", mcMemRemove+1, func() (*mcMemDriver, error) { return newMCMemDriverNet(mcMemNet9, "") })
+	states, trans, d := run("net7", mcMemKinds, 7, func() (*mcMemDriver, error) { return newMCMemDriver("") })
+	states9, trans9, _ := run("net9", mcMemRemove+1, 9, func() (*mcMemDriver, error) { return newMCMemDriverNet(mcMemNet9, "") })
 	states, trans = states+states9, trans+trans9
 	c.Set("max_depth", d)
 	c.Set("compared_part_instants", c11Ctr.compared.Load())
@@ -535,6 +708,9 @@ func TestMC_C11(t *testing.T) {
 	c.Set("cold_handle_checks", c11Ctr.coldChecks.Load())
 	c.Set("cold_handle_instants", c11Ctr.coldInstants.Load())
 	c.Set("custodian_reference_checks", c11Ctr.refCustodianSeen.Load())
+	c.Set("restarted_node_compared_part_instants", c11Ctr.freshCompared.Load())
+	c.Set("custodian_updates_at_occupied_timestamp_ignored", c11Ctr.custOccupied.Load())
+	c.Set("custodian_occupied_compared_part_instants", c11Ctr.custOccupiedCmp.Load())
 	c.Set("removals", c11Ctr.removals.Load())
 	c.Set("instants_with_removal_candidate", c11Ctr.candidateSeen.Load())
 	c.Set("states_after_remove_pledge_accept", c11Ctr.removePledgeAcc.Load())
@@ -548,6 +724,7 @@ func TestMC_C11(t *testing.T) {
 	c.Require(c11Ctr.equalTS.Load() > 10, "equal timestamps were not exercised (%d)", c11Ctr.equalTS.Load())
 	c.Require(c11Ctr.coldChecks.Load() > 10 && c11Ctr.custodianStates.Load() > 10, "custodian cold/warm comparison not exercised (%d)", c11Ctr.coldChecks.Load())
 	c.Require(c11Ctr.removals.Load() > 0, "no removal was reached")
+	c.Require(c11Ctr.custOccupied.Load() > 5 && c11Ctr.freshCompared.Load() > 1000, "same-account custodian update at an occupied timestamp / restarted-node comparison not exercised (%d, %d)", c11Ctr.custOccupied.Load(), c11Ctr.freshCompared.Load())
 	c.Require(states9 > 50 && c11Ctr.removePledgeAcc.Load() > 0, "9-node exploration did not reach remove -> pledge -> accept (%d states, %d)", states9, c11Ctr.removePledgeAcc.Load())
 	c.Require(c11Ctr.candidateSeen.Load() > 100, "the removal prediction inside the operation window was not exercised (%d instants)", c11Ctr.candidateSeen.Load())
 	c.Require(c11Ctr.validated.Load() > 0, "no driver transaction passed the real Validate")
